@@ -36,6 +36,26 @@ CHECKS = {
         "assumptions": ["the CA double and the steps after authentication are honest, so 'a handler authenticates' implies 'the run succeeds'"],
         "subchecks": [R("TestC01Auth", 300, 2000, qs=2)],
     },
+    "C02": {
+        "pkg": "c02", "level": "exploration",
+        "manifest": {
+            "text": "generated identities and handler configurations (written as JSON and loaded by the repository's loader); every field of the signing request that reaches the CA double is recomputed independently, the KeyID is decoded by a reference decoder and by the repository's, and each request is issued twice to expose key or transaction-id reuse",
+            "note": "sampling; configuration keys are restricted to the documented spellings (names in any case, default/unknown, decimal numbers) without two keys naming the same algorithm",
+            "technique": "property-based testing (rapid): independent recomputation of the request + reference KeyID decoder",
+        },
+        "assumptions": ["login names are usable as file names (no '/', no NUL)"],
+        "subchecks": [R("TestC02Request", 400, 3000, qs=2)],
+    },
+    "C03": {
+        "pkg": "c03", "level": "exploration",
+        "manifest": {
+            "text": "model-based histories of successful and failing runs of the real handler against one recording keyring agent with pre-existing identities whose comments are near-misses of the handler label; the agent content, the AddedKey constraints it received and signatures made with the provisioned certificates are checked after every run",
+            "note": "sequential histories; comments containing the exact handler name are outside the generated domain because the statement does not say whether they carry the label",
+            "technique": "stateful property-based testing (rapid) against a reference model of the agent content",
+        },
+        "assumptions": ["golang.org/x/crypto keyring is the requester's agent", "the CA double issues certificates valid for exactly the requested validity"],
+        "subchecks": [R("TestC03Provision", 200, 1000, qs=2)],
+    },
     "C05": {
         "pkg": "c05", "level": "exploration",
         "manifest": {
